@@ -1,4 +1,5 @@
 import Driver.Grammar
+import ParsleyVerif.Spec.Strip
 namespace Driver
 open PV PV.Text
 
@@ -80,6 +81,14 @@ def runParse (args : List Sexp) : String :=
         | none => "out-of-fuel"
         | some p =>
           s!"node={showRes t p.res};msg={match p.msg with | some m => showBytes m | none => "-"};calls={p.st.calls}"
-      if direct == "over-budget" then "over-budget" else "R:" ++ direct ++ "|P:" ++ viaParse
+      let stripped := match findArg "strip" args with
+        | none => ""
+        | some ks =>
+          let S := fun i => (ks.filterMap Sexp.nat?).contains i
+          let cfgS : Cfg := { cfg with env := stripList S c.env, ghost := false }
+          match run cfgS driverFuel (c.root.strip S) [] (f.pos 0) {} with
+          | none => "|S:over-budget"
+          | some (o, st) => s!"|S:res={showRes t o.res};cp={showNats o.cp};err={showErr o.err};ctxerr={showErr st.ctxErr};calls={st.calls}"
+      if direct == "over-budget" then "over-budget" else "R:" ++ direct ++ "|P:" ++ viaParse ++ stripped
 
 end Driver
